@@ -11,8 +11,10 @@ package mustache
 //@   nopanic
 //@   loop 0
 //@     invariant true
+// "present and non-empty"
 //@ func (c *MustacheTemplate) isDefinedVariable
 //@   requires c != nil
+//@   callsite[C10] GetVariable requires variables == caller_variables && name == caller_name
 //@   assigns nothing
 //@   nopanic
 //@ func (c *MustacheTemplate) escapeString
@@ -25,6 +27,18 @@ package mustache
 //@   assigns nothing
 //@   nopanic
 //@   terminates assumed the recursion descends into the sub-tokens of a section, a finite tree built by the parser
+//@   callsite[C10] GetVariable requires name == token.value && variables == caller_variables
+//@   callsite[C10] isDefinedVariable requires name == token.value && variables == caller_variables
+// "text verbatim, a variable replaced by its value or by nothing, an escaped variable by its ... escaped value, a section's
+// body iff its variable is present and non-empty, an inverted section's body iff it is not": what is written, per node kind
+//@   callsite[C10] WriteString#0 requires token.typ == parsers.TokenValue && arg1 == token.value
+//@   callsite[C10] WriteString#1 requires token.typ == parsers.TokenVariable && arg1 == deref(value)
+//@   callsite[C10] escapeString#0 requires token.typ == parsers.TokenEscapedVariable && value == deref(caller_value)
+//@   callsite[C10] WriteString#2 requires token.typ == parsers.TokenEscapedVariable && arg1 == escValue
+//@   callsite[C10] evaluateTokens#0 requires token.typ == parsers.TokenSection && defined && tokens == token.tokens && variables == caller_variables
+//@   callsite[C10] WriteString#3 requires token.typ == parsers.TokenSection && arg1 == value
+//@   callsite[C10] evaluateTokens#1 requires token.typ == parsers.TokenInvertedSection && !defined && tokens == token.tokens && variables == caller_variables
+//@   callsite[C10] WriteString#4 requires token.typ == parsers.TokenInvertedSection && arg1 == value
 //@   loop 0
 //@     invariant -1 <= rangeindex && rangeindex < len(tokens)
 //@     decreases len(tokens) - rangeindex
